@@ -4,6 +4,7 @@ import Rare.Drv.C14
 import Rare.Model.C02
 import Rare.Model.Expr.Funcs.Extra
 import Rare.Drv.C08Fmt
+import Rare.Drv.C08Time
 /-!
 Line-protocol ops of C08:
 
@@ -13,6 +14,8 @@ Line-protocol ops of C08:
   five fields: the two package switches, `stdlib.DisableLoad`, and a file system with one readable file
   (`x` = that file cannot be read either).  `float64` is IEEE double (`Drv.C14.floatArith`), gjson answers
   `unmodelled json`;
+* `exprt <time world> <opt> <template> <elems> <keys>` – the same with the time helpers modelled (`Funcs/TimeW.lean`) in the
+  time world decoded from the first field (`Drv/C08Time.lean`: zone tables, dateparse answers), plus `format`; colour etc. off;
 * `fmt <format> <operands>` – `fmt.Sprintf` on string operands (`Drv/C08Fmt.lean`); `exprw` also has `format` modelled;
 * `funcs <opt> <file> <template> <elems> <keys>` – a definitions file (user functions → `lazySubContext`), as in C10;
 * `gm <line> <indices> <idx>` – `SliceSpaceExpressionContext.GetMatch(idx)` (model `C02.getMatch`).
@@ -32,6 +35,12 @@ def formatTable : Table := [("format", Funcs.Format.kfFormatDrv)]
 def registryW (w : Funcs.Extra.World Float) : Registry :=
   mkRegistry (stdTable ++ Funcs.Extra.table w ++ formatTable) Gen.stdFunctionNames
 
+/-- The registry of `exprt`: the standard table, `color … json` in the plain world, the time helpers in the
+    decoded time world, `format`. -/
+def registryT (tw : Funcs.TimeW.TimeWorld) : Registry :=
+  mkRegistry (stdTable ++ Funcs.Extra.table (world false false false [] none) ++ Funcs.TimeW.table tw ++ formatTable)
+    Gen.stdFunctionNames
+
 def decInts (s : String) : Option (List Int) :=
   if s = "." then some [] else (s.splitOn ",").mapM String.toInt?
 
@@ -47,6 +56,14 @@ def handle (args : List String) : String :=
           (Rare.Drv.Expr.mkCtx elems keys)
       | none => "bad-args"
     | _, _, _, _, _ => "bad-args"
+  | ["exprt", twb, o, t, el, ks] =>
+    match Rare.Drv.C08Time.decTables twb, Hex.dec t, decHexList el, decHexList ks with
+    | some tabs, some tb, some elems, some keys =>
+      match Rare.Drv.Expr.decodeTemplate tb with
+      | some tc =>
+        Rare.Drv.Expr.evalWith (registryT (Rare.Drv.C08Time.world tabs)) (o == "1") tc (Rare.Drv.Expr.mkCtx elems keys)
+      | none => "bad-args"
+    | _, _, _, _ => "bad-args"
   | ["gm", l, ix, i] =>
     match Hex.dec l, decInts ix, i.toInt? with
     | some line, some indices, some idx =>
